@@ -146,6 +146,8 @@ def parent_main(args: argparse.Namespace) -> int:
         violations.extend(r["violations"])
         for h in r.get("harness_errors", []):
             broken.append(h)
+        for wd in r.get("watchdogs", []):
+            problems.append(wd)
         if r.get("truncated"):
             problems.append(f"shard {r['shard']} stopped on its time budget after {r['cases']} cases")
 
